@@ -11,7 +11,14 @@ C16 — model of the catchment / grid intersection and of the Voronoi weights:
   by the number of cells. The distance function is a parameter (`sqrt(dx*dx+dy*dy)` in the driver);
 * the glue of the wrappers that decides the answer: `filled` selects the cell list, a catchment that is not
   delineated (`None` lists), `np.atleast_2d` and the two-column assert on the points argument, the kernel's
-  guards `npoints < 1`, `nrows < 1 || ncols < 1` — error values by name (`Err`).
+  guards `npoints < 1`, `nrows < 1 || ncols < 1` — error values by name (`Err`); in `Catchment.intersect` also the
+  allocation of the kernel's buffers (`np.zeros(nrows*ncols)`: negative size rejected; the kernel does not check
+  the size it is told: writing past it is the error value `bufferOverflow`), the shape guards of the `Grid.data`
+  setter the weight array goes through, and the parent attributes `set_parent_attributes` copies;
+* `repAdd`: the value the accumulate loop holds for a cell met `n + 1` times (`af`, then `+= af` `n` times, in
+  this order — every numeric instance, also `Float`);
+* an executable statement of the property (`specWeight`, `specArea`: counts of catchment-cell centres in the
+  half-open footprint / extent, with `Bool`-valued tests) which the driver evaluates next to the model.
 
 No Mathlib. Everything is total and computable; the driver runs these definitions at `Float` (IEEE double,
 operation order of the C code) and at `Rat` (exact). Grid geometry is imported from `Model/C07.lean`.
@@ -36,6 +43,14 @@ inductive Err
   /-- the Cython wrapper's `assert xypoints.shape[1] == 2` (`AssertionError`): after `np.atleast_2d` the points
   array does not have two columns -/
   | badShape
+  /-- `np.zeros(nrows*ncols)` in `Catchment.intersect` with `nrows*ncols < 0`
+  (`ValueError: negative dimensions are not allowed`) -/
+  | badBuffer
+  /-- `c_intersect` is told the length of `idxcells` / `weights` (`ncells`) and never compares it with `j`: listing
+  more cells than the buffers hold is a write past their end (undefined behaviour in C) -/
+  | bufferOverflow
+  /-- the `Grid.data` setter: `Wrong number of rows` / `Wrong number of columns` (`ValueError`) -/
+  | badData
   deriving DecidableEq, Repr
 
 /-! ## `c_intersect` -/
@@ -54,6 +69,12 @@ if(k==j){ idxcells[j] = *idxcell; weights[j] = areafactor; j++; }
 def bump (af : α) (c : Int) : List (Int × α) → List (Int × α)
   | [] => [(c, af)]
   | (k, w) :: t => if k = c then (k, w + af) :: t else (k, w) :: bump af c t
+
+/-- what `weights[k]` holds once the cell has been met `n + 1` times: `weights[j] = areafactor` at the append,
+then `weights[k] += areafactor` `n` times -/
+def repAdd (af : α) : Nat → α
+  | 0 => af
+  | n + 1 => repAdd af n + af
 
 /-- the cell `c_coord2cell` returns for one row of `xy_area`; `none` is the `(NaN, NaN)` row `c_cell2coord`
 writes for an invalid cell number (`floor(NaN)` converts to a negative column, hence `-1`) -/
@@ -99,6 +120,18 @@ structure AreaGrid (α : Type) where
   ncols : Int
   /-- `area_grid.data`, row by row from the top -/
   data : List (List α)
+  /-- `area_grid.cellsize` (constructor argument `cellsize=grid.cellsize`) -/
+  csz : α
+  /-- `parentgrid_nrows / ncols / xllcorner / yllcorner / cellsize`, copied by `set_parent_attributes` -/
+  parent : Geom α
+
+/-- the `Grid.data` setter on a grid of shape `(nrows, ncols)`: an array with another number of rows or of columns
+is rejected; `_clipdata` is the identity (`mindata = -inf`, `maxdata = +inf` on a fresh grid) and `astype(float64)`
+of a float64 array changes nothing -/
+def setData {β : Type} (nrows ncols : Int) (value : List (List β)) : Except Err (List (List β)) :=
+  if (value.length : Int) ≠ nrows then .error .badData
+  else if value.any (fun r => decide ((r.length : Int) ≠ ncols)) then .error .badData
+  else .ok value
 
 section PyIntersect
 variable {α : Type} [Add α] [Sub α] [Mul α] [Div α] [OfNat α 0] [OfNat α 1] [LT α] [DecidableLT α] [Trunc α]
@@ -116,7 +149,11 @@ def scatterFn (nrows ncols rowStart colStart : Int) (kws : List (Int × α)) : I
 `grid.cell2coord(idxcells)` is modelled by `getcoord`: the guard of `c_cell2coord` passes for every cell the
 kernel returns (`Props/C16.lean: cIntersect_keys_valid`, true for every numeric instance). -/
 def intersect (coarse fine : Geom α) (cells : List Int) : Except Err (AreaGrid α) :=
+  -- `idxcells = np.zeros(nrows*ncols)`, `weights = np.zeros(nrows*ncols)`
+  if coarse.nrows * coarse.ncols < 0 then .error .badBuffer else
   let kws := cIntersect coarse fine.csz (cells.map (cell2coord fine))
+  -- the kernel fills the buffers without looking at their length
+  if (coarse.nrows * coarse.ncols).toNat < kws.length then .error .bufferOverflow else
   match kws with
   | [] => .error .noOverlap
   | kw0 :: rest =>
@@ -134,10 +171,15 @@ def intersect (coarse fine : Geom α) (cells : List Int) : Except Err (AreaGrid 
     let anrows := rowEnd - rowStart + 1
     let ancols := colEnd - colStart + 1
     let f := scatterFn coarse.nrows coarse.ncols rowStart colStart kws
-    .ok { keys := kws.map (·.1), weights := kws.map (·.2),
-          rowStart, rowEnd, colStart, colEnd, xll := axll, yll := ayll, nrows := anrows, ncols := ancols,
-          data := (List.range anrows.toNat).map fun (i : Nat) =>
-                    (List.range ancols.toNat).map fun (j : Nat) => f (i : Int) (j : Int) }
+    let arr := (List.range anrows.toNat).map fun (i : Nat) =>
+                 (List.range ancols.toNat).map fun (j : Nat) => f (i : Int) (j : Int)
+    -- `area_grid = Grid(ncols=ancols, nrows=anrows, cellsize=grid.cellsize, ...)`; `area_grid.data = weights_array`
+    match setData anrows ancols arr with
+    | .error e => .error e
+    | .ok data =>
+      .ok { keys := kws.map (·.1), weights := kws.map (·.2),
+            rowStart, rowEnd, colStart, colEnd, xll := axll, yll := ayll, nrows := anrows, ncols := ancols,
+            data, csz := coarse.csz, parent := coarse }
 
 /-- the state of a `Catchment` object this property reads: the flow-direction grid geometry and the two cell
 lists (`None` before `delineate_area`) -/
@@ -152,7 +194,49 @@ def Catchment.intersect (ca : Catchment α) (grid : Geom α) (filled : Bool) : E
   | none => .error .cellsNone
   | some cells => C16.intersect grid ca.fine cells
 
+/-- `catchment.intersect(grid)`: the default `filled=False` — the delineated (unfilled) area -/
+def Catchment.intersectDefault (ca : Catchment α) (grid : Geom α) : Except Err (AreaGrid α) :=
+  ca.intersect grid false
+
 end PyIntersect
+
+/-! ## the property, executable: counts of centres in half-open footprints -/
+
+section Spec
+variable {α : Type} [Add α] [Sub α] [Mul α] [Div α] [OfNat α 1] [LT α] [DecidableLT α] [LE α] [DecidableLE α] [Trunc α]
+
+/-- `(x, y)` lies in the half-open square of cell `c`: `[left, left + csz) × [bottom, bottom + csz)` -/
+def inFootprintB (g : Geom α) (c : Int) (x y : α) : Bool :=
+  let col : α := Trunc.ofInt (colOf g.ncols c)
+  let up : α := Trunc.ofInt (g.nrows - 1 - rowOf g.ncols c)
+  decide (g.xll + g.csz * col ≤ x) && decide (x < g.xll + g.csz * (col + 1)) &&
+  decide (g.yll + g.csz * up ≤ y) && decide (y < g.yll + g.csz * (up + 1))
+
+/-- `(x, y)` lies in the half-open extent of the grid, `xlim × ylim` -/
+def inExtentB (g : Geom α) (x y : α) : Bool :=
+  decide (g.xll ≤ x) && decide (x < g.xll + Trunc.ofInt g.ncols * g.csz) &&
+  decide (g.yll ≤ y) && decide (y < g.yll + Trunc.ofInt g.nrows * g.csz)
+
+/-- number of catchment cells (valid cells of the flow-direction grid) whose centre lies in the footprint of
+grid cell `k` -/
+def specCount (coarse fine : Geom α) (cells : List Int) (k : Int) : Nat :=
+  cells.countP fun c => validCell fine.nrows fine.ncols c &&
+    inFootprintB coarse k (getcoord fine c).1 (getcoord fine c).2
+
+/-- "the number of such cells times the ratio of cell areas" -/
+def specWeight (coarse fine : Geom α) (cells : List Int) (k : Int) : α :=
+  (fine.csz / coarse.csz) * (fine.csz / coarse.csz) * Trunc.ofInt (specCount coarse fine cells k : Nat)
+
+/-- number of catchment cells whose centre lies inside the grid -/
+def specInside (coarse fine : Geom α) (cells : List Int) : Nat :=
+  cells.countP fun c => validCell fine.nrows fine.ncols c &&
+    inExtentB coarse (getcoord fine c).1 (getcoord fine c).2
+
+/-- "the catchment area inside the grid" -/
+def specArea (coarse fine : Geom α) (cells : List Int) : α :=
+  Trunc.ofInt (specInside coarse fine cells : Nat) * (fine.csz * fine.csz)
+
+end Spec
 
 /-! ## `c_voronoi` -/
 
